@@ -162,6 +162,7 @@ type runner struct {
 	sawGC    bool
 	hot      int // steps left in which every image is checked
 	replayed bool
+	sweeps   int        // byte-offset sweeps left for this history (thorough tier)
 	hooked   []hookSnap // copies of the directory taken at the crash points of the running operation
 }
 
@@ -503,7 +504,12 @@ func (r *runner) imagesOf(cop, ft string, bs []base, every bool) {
 					n = fr.ends[gf.Batches+1] - fr.ends[gf.Batches]
 				}
 				if n > 0 {
-					tvs = r.tailVariants(n, r.level >= 2 && mi == 0)
+					sweep := r.level >= 2 && mi == 0 && r.sweeps > 0
+					if sweep {
+						r.sweeps--
+						r.res.Hit("image:every-byte-offset-sweep")
+					}
+					tvs = r.tailVariants(n, sweep)
 					if !every || mi > 0 {
 						tvs = tvs[:1+r.rng.Intn(2)]
 						tvs[0] = lib.Pick(r.rng, r.tailVariants(n, false))
@@ -1095,7 +1101,14 @@ func newRunner(name string, f lib.Flags, res *lib.Result, rng *lib.RNG, level in
 	if err := os.MkdirAll(root, 0o755); err != nil {
 		return nil, err
 	}
-	return &runner{name: name, f: f, res: res, rng: rng, drv: drv, real: newRealSide(root), level: level, serial: serial}, nil
+	sweeps := 0
+	if level >= 2 && rng.Bool() {
+		sweeps = 1
+	}
+	if name == "replay-0" {
+		sweeps = 1 << 20
+	}
+	return &runner{name: name, f: f, res: res, rng: rng, drv: drv, real: newRealSide(root), level: level, serial: serial, sweeps: sweeps}, nil
 }
 
 func (r *runner) done() {
@@ -1186,10 +1199,10 @@ func main() {
 	for _, fx := range fixedHistories() {
 		jobs = append(jobs, job{name: fx.name, ops: fx.ops, level: lvl, serial: true, seed: 7})
 	}
-	add("short", f.Scale(500, 8000), lvl, func(g *lib.RNG) []Op { return genShort(g, false) })
-	add("fault", f.Scale(300, 5000), lvl, func(g *lib.RNG) []Op { return genShort(g, true) })
-	add("gc", f.Scale(60, 600), f.Scale(0, 1), func(g *lib.RNG) []Op { return genGC(g, false) })
-	add("gcfault", f.Scale(24, 240), f.Scale(0, 1), func(g *lib.RNG) []Op { return genGC(g, true) })
+	add("short", f.Scale(500, 3000), lvl, func(g *lib.RNG) []Op { return genShort(g, false) })
+	add("fault", f.Scale(300, 2000), lvl, func(g *lib.RNG) []Op { return genShort(g, true) })
+	add("gc", f.Scale(60, 300), f.Scale(0, 1), func(g *lib.RNG) []Op { return genGC(g, false) })
+	add("gcfault", f.Scale(24, 120), f.Scale(0, 1), func(g *lib.RNG) []Op { return genGC(g, true) })
 	// longest first within a shard would not help: interleave by index
 	t0 := time.Now()
 	n := 0
